@@ -814,7 +814,7 @@ Definition run_op_name (args : list N) : list N :=
   end.
 
 (* 111: a keyword handler as translated from the code (Gen/Dispatch.v), run by the interpreter of Parse/DispatchLang.v:
-   handler (0 extern, 1 inline, 2 friend, 3 typedef, 4 static_assert), in-class flag, the keyword token (type, value), tokens.
+   handler (0 extern, 1 inline, 2 friend, 3 typedef, 4 static_assert, 5 attribute dispatcher, 6 __attribute__, 7 __declspec), in-class flag, the keyword token (type, value), tokens.
    Output: 0 callee rest-length npos <rarg>* nkw (name <rarg>)*  |  1 rest-length <tok option>  |  2 rest-length  |  3 code
    rarg: 0 (no token) | 1 type value | 2 (doxygen) | 3 (template) | 4 (True) | 5 (False) *)
 Definition enc_rarg (a : DispatchLang.rarg) : list N :=
@@ -822,12 +822,15 @@ Definition enc_rarg (a : DispatchLang.rarg) : list N :=
   | DispatchLang.RTok None => [0] | DispatchLang.RTok (Some t) => [1; kty t; kval t] | DispatchLang.RDox => [2] | DispatchLang.RTemplate => [3]
   | DispatchLang.RBool true => [4] | DispatchLang.RBool false => [5]
   end.
-Definition callee_code (f : DispatchLang.callee) : N := match f with DispatchLang.F_declarations => 0 | DispatchLang.F_template_instantiation => 1 | DispatchLang.F_namespace => 2 end.
+Definition callee_code (f : DispatchLang.callee) : N := match f with DispatchLang.F_declarations => 0 | DispatchLang.F_template_instantiation => 1 | DispatchLang.F_namespace => 2
+  | DispatchLang.F_gcc_attribute => 3 | DispatchLang.F_declspec => 4 | DispatchLang.F_attribute_specifier_seq => 5 end.
 Definition run_dispatch (args : list N) : list N :=
   match args with
   | h :: ic :: kt :: kv :: r =>
       let prog := if h =? 0 then Dispatch.prog_parse_extern else if h =? 1 then Dispatch.prog_parse_inline else if h =? 2 then Dispatch.prog_parse_friend_decl
-                  else if h =? 3 then Dispatch.prog_parse_typedef else Dispatch.prog_consume_static_assert in
+                  else if h =? 3 then Dispatch.prog_parse_typedef else if h =? 4 then Dispatch.prog_consume_static_assert
+                  else if h =? 5 then Dispatch.prog_consume_attribute else if h =? 6 then Dispatch.prog_consume_gcc_attribute
+                  else Dispatch.prog_consume_declspec in
       match DispatchLang.run prog (negb (ic =? 0)) (mkTk kt kv) (dec_tks r) with
       | DispatchLang.OCall f pos kw rest =>
           0 :: callee_code f :: nlen rest :: nlen pos :: flat_map enc_rarg pos ++ nlen kw :: flat_map (fun p => fst p :: enc_rarg (snd p)) kw
